@@ -17,9 +17,14 @@ pub fn property() -> Property {
             "covering is judged with the library's own min_fee() of the final builder, as the property's observation points state".into(),
             "the offered UTxOs form a set, as the property says: the same outpoint is never listed twice (a list that repeats an outpoint is double-counted by every strategy; that is outside the stated domain and recorded in DESIGN.md as an observation)".into(),
             "amounts stay below 2^40 so that the improvement phase's 2*x / 3*x targets cannot overflow (overflow there is arithmetic, not selection)".into(),
+            "sub-check combined: builder histories of the scenario engine (see C06's assumptions) that were balanced through add_inputs_from_and_change / add_inputs_from_and_change_with_collateral_return; the fee the call set must reach the ledger minimum of the really signed transaction (C06's oracle), i.e. the inputs it selected pay for outputs plus minimum fee".into(),
             "largest-first order and minimality are checked when lovelace (resp. the single requested asset) was short at entry; the 'no inputs yet but already covered' branch that takes one arbitrary UTxO is outside that precondition".into(),
         ],
-        subchecks: vec![SubCheck { name: "selection", kind: Kind::Tape { quick: 3_000_000, thorough: 40_000_000, max_len: 400 }, run: selection }],
+        subchecks: vec![
+            SubCheck { name: "selection", kind: Kind::Tape { quick: 3_000_000, thorough: 40_000_000, max_len: 400 }, run: selection },
+            // the combined select-and-change entry points, inside whole builder histories (scenario engine, C06's fee oracle)
+            SubCheck { name: "combined", kind: Kind::Tape { quick: 300_000, thorough: 6_000_000, max_len: 500 }, run: super::builder::c08_combined_case },
+        ],
         crash_prone: false,
         max_reject_fraction: 0.2,
         required_label_fraction: vec![("selection", "random-improve:swap-then-top-up", 0.002)],
